@@ -301,6 +301,7 @@ func harnesses(r *fw.Run) []fw.HarnessSpec {
 		{name: "drop-during-reconnect", callers: 1, closeConn: true, dropInHandshake: true, fresh: true},
 		{name: "one-caller-sequence", callers: 1, sequential: 2, reorder: true, dup: true},
 		{name: "caller-context-with-later-deadline", callers: 2, withhold: true, callerDeadline: 20 * time.Second},
+		{name: "caller-context-with-earlier-deadline", callers: 2, withhold: true, callerDeadline: time.Second},
 		{name: "two-idle-drops-then-request", callers: 1, idle: 20 * time.Second, idleDrop: true, idleDrops: 2, fresh: true},
 	}
 	bounds := map[string]int{"idle-then-slow-answer": 1}
@@ -335,7 +336,7 @@ func runScenario(c *enum.Ctx, sc scenario) {
 	var freshErr error
 	freshDone := false
 	var okAfter bool
-	const timeout = 5 * time.Second
+	timeout := 5 * time.Second
 	s.Run(func() {
 		conn, err := liteclient.NewConnection(vctx.Background(), w.key.Pub, "server:1")
 		if err != nil {
@@ -438,7 +439,14 @@ func runScenario(c *enum.Ctx, sc scenario) {
 		c.Fail("never-returns:"+sc.name, "a call did not return within 60 virtual seconds: %s", s.Blocked())
 		return
 	}
+	// a call's deadline is the earlier of the client's timeout and the deadline of the context it was given
+	// (the follow-up calls of caller 0 use a plain context)
+	clientTimeout := timeout
 	for _, cr := range results {
+		timeout := clientTimeout
+		if sc.callerDeadline > 0 && sc.callerDeadline < timeout && !bytes.Contains(cr.payload, []byte("-seq-")) {
+			timeout = sc.callerDeadline
+		}
 		if cr.err == nil {
 			// (1) own answer or nothing
 			if !bytes.Equal(cr.res, answerFor(cr.payload)) {
